@@ -23,12 +23,12 @@ def dedupItems (l : List Item) : List Item := l.eraseDups
 
 /-- Internal (unobserved) transitions enabled in `s`. -/
 def tauLabels (a : AccCfg) (s : St) : List Label :=
-  let base : List Label := [.pCloseSrc, .pWait, .pSend, .pDrop, .wRecv, .wExitClosed, .wExitCtx,
-    .cCheck, .cSelCtx, .cRecv, .cClosed, .cClose1, .cClose2]
+  let base : List Label := [.pStop, .pCloseSrc, .pWait, .pSend, .pDrop, .wRecv, .wExitClosed, .wExitCtx,
+    .cCheck, .cSelCtx, .cRecv, .cClosed, .cClose0, .cCloseW, .cClose1, .cClose2]
   let holds := dedupItems s.wHold
   let k := s.delivered.length
   base ++ holds.map .wSend ++ holds.map .wDrop
-    ++ (if s.ctx1 then [.pTop] else [])                       -- the producer sees ctx.Done at the top of its loop
+    ++ (if s.pctx then [.pTop] else [])                       -- the producer sees producerCtx.Done at the top of its loop
     ++ (if s.ctx1 || !a.mg then                               -- a mapper call returns by itself: not gated, or its ctx is done
           s.wMap.map (fun (i : Nat) => if s.ctx1 && a.mg then Label.wMapErr i
                                else if Int.ofNat i == a.mfail then Label.wMapErr i else Label.wMapOk i)
@@ -60,7 +60,7 @@ def eventLabels (a : AccCfg) (s : St) (ev : String) : Option (List Label) :=
   match ev.toList with
   | 'o' :: _ => some []            -- Open returned: the model starts after it (no transition)
   | 'e' :: _ => some []            -- a gated source Emit was released: its return is logged separately
-  | 's' :: _ => some (if s.ctx1 then [] else [.pTop])
+  | 's' :: _ => some (if s.pctx then [] else [.pTop])
   | 'r' :: rest =>
     match rest.getLast? with
     | some 'v' => some [.pEmitVal]
@@ -68,7 +68,7 @@ def eventLabels (a : AccCfg) (s : St) (ev : String) : Option (List Label) :=
     | some 'x' => some [.pEmitErr]
     | some 'c' => some [.pEmitErr]
     | _ => none
-  | 'C' :: _ => some [.cClose0]
+  | 'C' :: _ => some [.cCloseP]
   | 'x' :: _ => some [.cancel]
   | 'm' :: rest =>
     match (String.ofList rest).toNat? with
